@@ -127,6 +127,30 @@ func runC20(w *World, c *Check) {
 	ruleWireAudit(w, c, "C20.wire")
 }
 
+// firstColonOf: idx is strings.IndexByte(s, ':') / strings.Index(s, ":") / strings.IndexRune(s, ':') of the same s.
+func firstColonOf(idx, s ssa.Value) bool {
+	call, ok := idx.(*ssa.Call)
+	if !ok {
+		return false
+	}
+	f := call.Call.StaticCallee()
+	if f == nil || len(call.Call.Args) != 2 || call.Call.Args[0] != s {
+		return false
+	}
+	k, ok := call.Call.Args[1].(*ssa.Const)
+	if !ok || k.Value == nil {
+		return false
+	}
+	switch calleeName(f) {
+	case "strings.IndexByte", "strings.IndexRune":
+		v, isInt := constant.Int64Val(k.Value)
+		return isInt && v == ':'
+	case "strings.Index":
+		return k.Value.Kind() == constant.String && constant.StringVal(k.Value) == ":"
+	}
+	return false
+}
+
 // ruleBasicSplit: in service.parseBasicHeaderValue the decoded header value "user:password" carries
 // the password. The only way to a password-free value is the part before the first colon
 // (SplitN(v, ":", 2)[0] or the first result of Cut(v, ":")). The domain and user name results —
@@ -181,7 +205,11 @@ func ruleBasicSplit(w *World, c *Check, rule string) {
 		case *ssa.ChangeType:
 			res = secret(x.X, depth+1)
 		case *ssa.Slice:
+			// v[:i] with i = the index of the first colon in v is the part before it
 			res = secret(x.X, depth+1)
+			if res && x.Low == nil && x.High != nil && firstColonOf(x.High, x.X) {
+				res = false
+			}
 		case *ssa.Phi:
 			for _, e := range x.Edges {
 				if secret(e, depth+1) {
@@ -237,6 +265,7 @@ func ruleBasicSplit(w *World, c *Check, rule string) {
 		}
 		return res
 	}
+	_ = isColon
 	names := []string{"domain", "username"}
 	bad := map[int]string{}
 	nret := 0
